@@ -19,11 +19,15 @@ from sexp import Atom, opt
 
 MODEL = "pen"
 SHRINKABLE = True
-RULE = ("fonts of 1-7 glyphs (bases A-C, composites D-G with 1-3 nesting levels of dyadic/integer transforms), contours "
-        "open/closed, line/curve/qcurve runs, off-curve-only, single-point, start on off-curve, duplicate coordinates; "
-        "identifiers from a shared pool on a random subset (so decomposition conflicts happen); source states "
-        "new / shallow / full; 3-10 ops per case; non-trivial = at least one glyph with a contour of >= 3 points AND at "
-        "least one successful rebuild/copy/insert/decompose/segrebuild; distinct = distinct canonical cases")
+RULE = ("quick 1200 / thorough 20000 cases; a case = 1-2 fonts of 1-7 glyphs (bases A-C, composites D-G with 1-3 nesting levels of "
+        "integer/dyadic transforms incl. identity, rotation, mirror, degenerate; occasionally a missing base), each font built "
+        "in memory or saved to a scratch UFO and reopened, each glyph new / shallow (contours untouched) / full; contours "
+        "open/closed, line/curve/qcurve runs, off-curve-only, single-point, start on off-curve, duplicate coordinates around "
+        "the closing point; 12% of the cases contain deliberately malformed outlines or duplicate identifiers (in-memory only); "
+        "identifiers from a shared pool of 10 on a random subset (so decomposition conflicts are frequent); 3-10 ops per case "
+        "from draw/rebuild/drawContour/drawComponent/segdraw/segrebuild/copy/insert/decompose/decomposeAll/pen(raw stream, skip "
+        "flag)/dump; every copy/insert pair is mutated on both sides at the end of the case; non-trivial = some contour has >= 3 "
+        "points AND at least one successful rebuild/copy/insert/decompose/segrebuild; distinct = distinct canonical cases")
 ASSUMPTIONS = [
     "INDEPENDENCE (copy shares no mutable state) is checked on the implementation only (mutate every field of each side "
     "incl. nested lib values, compare the other side's dump; identity walk over mutable containers): correspondence-only, "
@@ -415,7 +419,7 @@ def gen_case(rng, tier):
 
 
 def generate(rng, tier):
-    n = 420 if tier == "quick" else 9000
+    n = 1200 if tier == "quick" else 20000
     for _ in range(n):
         case, stats = gen_case(rng, tier)
         case["gen_stats"] = stats
@@ -942,6 +946,10 @@ class World(object):
                 # identifiers of shallow-loaded contours are not registered (FIXME in GlyphObjectLoadingPointPen): a pen
                 # drawing into such a glyph can take one of them; later deepening then asserts.  C10's concern; the
                 # oracle does not judge identifier handling / rejections on this glyph any more
+                self.tainted.add(ctx["key"])
+            if split_stream([_ce(e) for e in op[4]]) is None:
+                # a path that is begun and never ended leaves its identifiers registered without any object
+                # carrying them - same consequence as a rejected call
                 self.tainted.add(ctx["key"])
             p = g.getPointPen()
             p.skipConflictingIdentifiers = bool(op[3])
